@@ -294,17 +294,125 @@ Proof.
   - apply nl_to_space_forall; auto.
 Qed.
 
-(* for every mode but pre-line the collapsing passes leave their own output unchanged *)
+(* tab_re normal form: no blank next to a line feed.  pb / pl: the previous
+   character was a blank / a line feed *)
+Fixpoint tnf (pb pl : bool) (l : list rune) : Prop :=
+  match l with
+  | [] => True
+  | c :: r => (c = LF -> pb = false) /\ (is_blank c = true -> pl = false) /\
+              tnf (is_blank c) (N.eqb c LF) r
+  end.
+
+Lemma tnf_weaken l : forall pb pl, tnf pb pl l -> tnf false false l.
+Proof. destruct l as [|c r]; cbn; auto. intros pb pl (A & B & C). auto. Qed.
+
+Lemma blank_not_lf c : is_blank c = true -> N.eqb c LF = false.
+Proof. intros H. apply is_blank_spec in H as [-> | ->]; reflexivity. Qed.
+
+Lemma tnf_blanks pend : forall pb r, forallb is_blank pend = true -> pend <> [] ->
+  tnf true false r -> tnf pb false (pend ++ r).
+Proof.
+  induction pend as [|c p IH]; intros pb r Hb Hne Hr; [contradiction|].
+  cbn in Hb. apply andb_true_iff in Hb as [Hc Hp]. cbn [app tnf]. rewrite Hc, (blank_not_lf c Hc).
+  split; [intros ->; discriminate|]. split; auto.
+  destruct p as [|c' p']; [exact Hr|]. apply IH; auto. discriminate.
+Qed.
+
+(* the output of tab_re is in normal form *)
+Lemma tab_re_from_tnf l : forall pend after,
+  forallb is_blank pend = true -> (after = true -> pend = []) ->
+  tnf false after (tab_re_from pend after l).
+Proof.
+  induction l as [|c r IH]; intros pend after Hp Ha; cbn [tab_re_from].
+  - destruct pend as [|x p]; [exact I|].
+    assert (after = false) by (destruct after; auto; specialize (Ha eq_refl); discriminate). subst.
+    rewrite <- (app_nil_r (x :: p)). apply tnf_blanks; auto. discriminate. exact I.
+  - destruct (N.eqb_spec c LF) as [->|Hc].
+    + cbn [tnf]. split; auto. split; [discriminate|]. cbn. apply IH; auto.
+    + destruct (is_blank c) eqn:B.
+      * destruct after.
+        -- apply IH; auto.
+        -- apply IH; [|discriminate]. rewrite forallb_app, Hp. cbn. rewrite B. reflexivity.
+      * assert (T : tnf (match pend with [] => false | _ => true end) false (c :: tab_re_from [] false r)).
+        { cbn [tnf]. split; [contradiction|]. split; [congruence|]. rewrite B.
+          destruct (N.eqb_spec c LF); [contradiction|]. apply IH; auto; discriminate. }
+        destruct pend as [|x p].
+        -- cbn [app]. destruct after.
+           ++ cbn [tnf] in *. destruct T as (T1 & T2 & T3). split; auto. split; auto. congruence.
+           ++ exact T.
+        -- assert (after = false) by (destruct after; auto; specialize (Ha eq_refl); discriminate). subst.
+           apply tnf_blanks; auto. discriminate.
+Qed.
+
+(* ... and tab_re leaves a text in normal form unchanged *)
+Lemma tab_re_from_tnf_id l : forall pend after,
+  forallb is_blank pend = true ->
+  tnf false after (pend ++ l) -> (after = true -> pend = []) ->
+  tab_re_from pend after l = pend ++ l.
+Proof.
+  induction l as [|c r IH]; intros pend after Hp Ht Ha; cbn [tab_re_from].
+  - now rewrite app_nil_r.
+  - assert (Tc : forall pb pl, tnf pb pl (pend ++ c :: r) ->
+                 tnf (match pend with [] => pb | _ => true end) (match pend with [] => pl | _ => false end) (c :: r)).
+    { clear -Hp. induction pend as [|x p IHp]; intros pb pl H; [exact H|].
+      cbn in Hp. apply andb_true_iff in Hp as [Hx Hp']. cbn [app tnf] in H. destruct H as (_ & _ & H).
+      rewrite Hx, (blank_not_lf x Hx) in H. specialize (IHp Hp' _ _ H). destruct p; exact IHp. }
+    specialize (Tc _ _ Ht). cbn [tnf] in Tc. destruct Tc as (T1 & T2 & T3).
+    destruct (N.eqb_spec c LF) as [->|Hc].
+    + assert (pend = []) by (destruct pend; auto; specialize (T1 eq_refl); discriminate). subst pend.
+      cbn [app]. f_equal. cbn in T3. apply (IH [] true); auto.
+    + destruct (is_blank c) eqn:B.
+      * assert (after = false).
+        { destruct after; auto. rewrite (Ha eq_refl) in T2. specialize (T2 eq_refl). discriminate. }
+        subst after.
+        rewrite (IH (pend ++ [c]) false); [now rewrite <- app_assoc| | |discriminate].
+        -- rewrite forallb_app, Hp. cbn. rewrite B. reflexivity.
+        -- rewrite <- app_assoc. exact Ht.
+      * f_equal. f_equal. apply (IH [] false); auto; try discriminate;
+        try (destruct (N.eqb_spec c LF); [contradiction|]; cbn [app]; exact T3).
+Qed.
+
+Lemma tab_re_tnf_id l : tnf false false l -> tab_re l = l.
+Proof. intros H. unfold tab_re. apply (tab_re_from_tnf_id l [] false); auto; discriminate. Qed.
+
+(* space_re keeps the normal form of tab_re *)
+Lemma space_re_from_tnf l : forall inb pl, tnf inb pl l -> tnf inb pl (space_re_from inb l).
+Proof.
+  induction l as [|c r IH]; intros inb pl H; cbn [space_re_from]; [exact I|].
+  cbn [tnf] in H. destruct H as (H1 & H2 & H3).
+  destruct (is_blank c) eqn:B.
+  - specialize (H2 eq_refl). subst pl. rewrite (blank_not_lf c B) in H3.
+    destruct inb.
+    + apply IH. exact H3.
+    + cbn [tnf]. split; [discriminate|]. split; [auto|]. cbn. apply IH. exact H3.
+  - cbn [tnf]. rewrite B. split; [auto|]. split; [congruence|]. apply IH. exact H3.
+Qed.
+
+Lemma tnf_tl_sp l : tnf false false l -> has_prefix_sp l = true -> tnf false false (tl l).
+Proof.
+  destruct l as [|c r]; cbn; auto. intros (A & B & C) H. apply N.eqb_eq in H. subst c.
+  eapply tnf_weaken; eauto.
+Qed.
+
+(* the collapsing passes leave their own output unchanged *)
 Lemma core_fixpoint m l :
-  m <> WPreLine -> cr_free l ->
+  cr_free l ->
   (new_line_collapse m = true -> lf_free l) ->
   (space_collapse m = true -> snf false l) ->
+  (m = WPreLine -> tnf false false l) ->
   core m l = l.
 Proof.
-  intros Hm Hcr Hlf Hs. unfold core. rewrite (norm_lf_id l Hcr).
-  destruct m; cbn [space_collapse new_line_collapse] in *; try congruence; auto.
+  intros Hcr Hlf Hs Ht. unfold core. rewrite (norm_lf_id l Hcr).
+  destruct m; cbn [space_collapse new_line_collapse] in *; auto.
   - rewrite tab_re_id, nl_to_space_id by auto. apply space_re_from_id; auto.
   - rewrite tab_re_id, nl_to_space_id by auto. apply space_re_from_id; auto.
+  - rewrite tab_re_tnf_id by auto. apply space_re_from_id; auto.
+Qed.
+
+Lemma core_tnf t : tnf false false (core WPreLine t).
+Proof.
+  unfold core. cbn [space_collapse new_line_collapse]. unfold space_re, tab_re.
+  apply space_re_from_tnf. apply tab_re_from_tnf; auto; discriminate.
 Qed.
 
 Lemma core_lf_free m t : new_line_collapse m = true -> lf_free (core m t).
@@ -354,19 +462,18 @@ Proof.
   destruct (space_collapse m), (new_line_collapse m); auto using space_re_nonempty.
 Qed.
 
-(* idempotence of the processing of one text (text and returned flag) *)
+(* idempotence of the processing of one text (text and returned flag), all five modes *)
 Theorem process_text_idempotent m f t :
-  m <> WPreLine ->
   process_text m f (fst (process_text m f t)) = process_text m f t.
 Proof.
-  intros Hm. destruct t as [|c0 r0]; [reflexivity|].
+  destruct t as [|c0 r0]; [reflexivity|].
   assert (Hne : c0 :: r0 <> []) by discriminate. set (t := c0 :: r0) in *.
   rewrite (process_text_core m f t Hne).
   pose proof (core_nonempty m t Hne) as Cne. pose proof (core_cr_free m t) as Ccr.
+  assert (Ctnf : m = WPreLine -> tnf false false (core m t)) by (intros ->; apply core_tnf).
   destruct (space_collapse m) eqn:SC; cbn [fst].
   - pose proof (core_snf m t SC) as Csnf.
-    assert (NLC : new_line_collapse m = true) by (destruct m; cbn in *; congruence).
-    pose proof (core_lf_free m t NLC) as Clf.
+    assert (Clf : new_line_collapse m = true -> lf_free (core m t)) by (apply core_lf_free).
     set (c := core m t) in *.
     destruct (f && has_prefix_sp c) eqn:LP.
     + apply andb_true_iff in LP as [-> HP].
@@ -378,8 +485,9 @@ Proof.
         assert (FX : core m (b :: r) = b :: r).
         { apply core_fixpoint; auto.
           - inversion Ccr; auto.
-          - intros _. inversion Clf; auto.
-          - intros _. apply (snf_tl (a :: b :: r)). exact Csnf. }
+          - intros H. specialize (Clf H). inversion Clf; auto.
+          - intros _. apply (snf_tl (a :: b :: r)). exact Csnf.
+          - intros H. apply (tnf_tl_sp (a :: b :: r)); auto. }
         rewrite FX.
         cbn in HP. apply N.eqb_eq in HP. subst a.
         cbn [snf] in Csnf. destruct Csnf as (_ & _ & (_ & Hb & _)).
@@ -397,48 +505,30 @@ Qed.
 
 (* ---------------------------------------------------------------- trees *)
 
-Fixpoint preline_free (b : inl) : Prop :=
-  match b with
-  | IText m _ => m <> WPreLine
-  | IBox ks => (fix go (l : list inl) : Prop := match l with [] => True | k :: r => preline_free k /\ go r end) ks
-  | IAtom => True
-  end.
-
-Lemma preline_free_box ks : preline_free (IBox ks) <-> Forall preline_free ks.
+Theorem pw_idempotent b : forall f, pw f (fst (pw f b)) = pw f b.
 Proof.
-  cbn [preline_free]. induction ks as [|k r IH]; split; intros H; auto.
-  - destruct H as [H1 H2]. constructor; auto. apply IH; auto.
-  - inversion H; subst. split; auto. apply IH; auto.
-Qed.
-
-Theorem pw_idempotent b : forall f, preline_free b -> pw f (fst (pw f b)) = pw f b.
-Proof.
-  induction b as [m t| |ks IH] using inl_ind'; intros f Hp.
+  induction b as [m t| |ks IH] using inl_ind'; intros f.
   - cbn [pw]. destruct (process_text m f t) as [t' f'] eqn:E. cbn [fst pw].
-    pose proof (process_text_idempotent m f t Hp) as H. rewrite E in H. cbn [fst] in H. rewrite H. reflexivity.
+    pose proof (process_text_idempotent m f t) as H. rewrite E in H. cbn [fst] in H. rewrite H. reflexivity.
   - reflexivity.
-  - apply preline_free_box in Hp. rewrite !pw_box.
+  - rewrite !pw_box.
     destruct (pw_list pw f ks) as [ks' f'] eqn:E. cbn [fst]. rewrite pw_box.
     assert (G : pw_list pw f ks' = (ks', f')).
     { revert f ks' f' E. induction IH as [|k r Hk Hr IHr]; intros f ks' f' E; cbn [pw_list] in E.
       - injection E as <- <-. reflexivity.
-      - inversion Hp as [|? ? Hpk Hpr]; subst. specialize (IHr Hpr).
-        destruct k as [m t|kk|].
+      - destruct k as [m t|kk|].
         + destruct (pw f (IText m t)) as [k' f1] eqn:E1. destruct (pw_list pw f1 r) as [r' f2] eqn:E2.
-          injection E as <- <-. specialize (Hk f Hpk). rewrite E1 in Hk. cbn [fst] in Hk.
+          injection E as <- <-. specialize (Hk f). rewrite E1 in Hk. cbn [fst] in Hk.
           cbn [pw] in E1. destruct (process_text m f t) as [t' g]. injection E1 as <- <-.
           cbn [pw_list]. rewrite Hk. rewrite (IHr _ _ _ E2). reflexivity.
         + destruct (pw f (IBox kk)) as [k' f1] eqn:E1. destruct (pw_list pw f1 r) as [r' f2] eqn:E2.
-          injection E as <- <-. specialize (Hk f Hpk). rewrite E1 in Hk. cbn [fst] in Hk.
+          injection E as <- <-. specialize (Hk f). rewrite E1 in Hk. cbn [fst] in Hk.
           rewrite pw_box in E1. destruct (pw_list pw f kk) as [kk' g]. injection E1 as <- <-.
           cbn [pw_list]. rewrite Hk. rewrite (IHr _ _ _ E2). reflexivity.
         + destruct (pw_list pw false r) as [r' f2] eqn:E2. injection E as <- <-.
           cbn [pw_list]. rewrite (IHr _ _ _ E2). reflexivity. }
     rewrite G. reflexivity.
 Qed.
-
-(* the full statement (all five modes) *)
-Definition pw_idempotent_statement : Prop := forall b f, pw f (fst (pw f b)) = pw f b.
 
 (* ================================================================== CSS Text 3, 4.1.1 (phase I) *)
 
@@ -665,5 +755,97 @@ Proof.
   destruct (f && has_prefix_sp (core m (c :: r))); auto. apply snf_tl; auto.
 Qed.
 
-Definition whitespace_spec_preline_statement : Prop :=
-  forall t, core WPreLine t = preline_spec t.
+
+(* ================================================================== pre-line *)
+
+Lemma trim_end_blanks p : forallb is_blank p = true -> trim_end p = [].
+Proof.
+  induction p as [|c r IH]; cbn; auto. rewrite andb_true_iff. intros [Hc Hr]. rewrite IH, Hc; auto.
+Qed.
+
+Lemma trim_end_nonblank c s : is_blank c = false -> trim_end (c :: s) = c :: trim_end s.
+Proof. intros H. cbn [trim_end]. destruct (trim_end s); [rewrite H|]; reflexivity. Qed.
+
+Lemma trim_end_app_nonblank p c s : is_blank c = false -> trim_end (p ++ c :: s) = p ++ c :: trim_end s.
+Proof.
+  intros H. induction p as [|x p IH]; cbn [app]; [apply trim_end_nonblank; auto|].
+  cbn [trim_end]. rewrite IH. destruct p; reflexivity.
+Qed.
+
+Lemma split_lines_nonempty l : split_lines l <> [].
+Proof.
+  induction l as [|c r IH]; cbn; [discriminate|]. destruct (N.eqb c LF); [discriminate|].
+  destruct (split_lines r); discriminate.
+Qed.
+
+Definition prepend (p : list rune) (segs : list (list rune)) : list (list rune) :=
+  match segs with s :: ss => (p ++ s) :: ss | [] => [p] end.
+
+Lemma join_lf_cons l r : r <> [] -> join_lf (l :: r) = l ++ LF :: join_lf r.
+Proof. destruct r; [contradiction|reflexivity]. Qed.
+
+Lemma trimmed_lines_nonempty a segs : segs <> [] -> trimmed_lines a segs <> [].
+Proof. destruct segs as [|s [|s' r]]; cbn; try contradiction; discriminate. Qed.
+
+Lemma trimmed_lines_cons2 a x y r :
+  trimmed_lines a (x :: y :: r) = trim_end (if a then drop_blanks x else x) :: trimmed_lines true (y :: r).
+Proof. reflexivity. Qed.
+
+(* tab_re = cut at the line feeds, drop the blanks next to them *)
+Lemma tab_re_from_lines x : forall pend after,
+  forallb is_blank pend = true -> (after = true -> pend = []) ->
+  tab_re_from pend after x = join_lf (trimmed_lines after (prepend pend (split_lines x))).
+Proof.
+  induction x as [|c r IH]; intros pend after Hp Ha; cbn [tab_re_from split_lines].
+  - cbn. destruct after; [rewrite (Ha eq_refl); reflexivity|]. now rewrite app_nil_r.
+  - pose proof (split_lines_nonempty r) as NE.
+    destruct (split_lines r) as [|s ss] eqn:E; [contradiction|].
+    destruct (N.eqb_spec c LF) as [->|Hc].
+    + rewrite (IH [] true) by (auto; discriminate).
+      cbn [prepend app]. rewrite app_nil_r. rewrite trimmed_lines_cons2.
+      assert (TE : trim_end (if after then drop_blanks pend else pend) = []).
+      { destruct after; [rewrite (Ha eq_refl); reflexivity|]. apply trim_end_blanks; auto. }
+      rewrite TE. rewrite join_lf_cons by (apply trimmed_lines_nonempty; discriminate). reflexivity.
+    + destruct (is_blank c) eqn:B.
+      * destruct after.
+        -- rewrite (Ha eq_refl). rewrite (IH [] true) by (auto; discriminate).
+           cbn [prepend app]. destruct ss as [|s' ss'].
+           ++ cbn [trimmed_lines drop_blanks]. rewrite B. reflexivity.
+           ++ rewrite !trimmed_lines_cons2. cbn [drop_blanks]. rewrite B. reflexivity.
+        -- rewrite (IH (pend ++ [c]) false); [|rewrite forallb_app, Hp; cbn; rewrite B; reflexivity|discriminate].
+           cbn [prepend]. rewrite <- app_assoc. reflexivity.
+      * rewrite (IH [] false) by (auto; discriminate). cbn [prepend app].
+        assert (PRE : (if after then drop_blanks (pend ++ c :: s) else pend ++ c :: s) = pend ++ c :: s).
+        { destruct after; auto. rewrite (Ha eq_refl). cbn. rewrite B. reflexivity. }
+        destruct ss as [|s' ss'].
+        -- cbn [trimmed_lines join_lf]. rewrite PRE. reflexivity.
+        -- rewrite !trimmed_lines_cons2. rewrite PRE. rewrite trim_end_app_nonblank by auto.
+           rewrite !join_lf_cons by (apply trimmed_lines_nonempty; discriminate).
+           rewrite <- app_assoc. reflexivity.
+Qed.
+
+Lemma space_re_from_app_nonblank l : forall b c rest, is_blank c = false ->
+  space_re_from b (l ++ c :: rest) = space_re_from b l ++ c :: space_re_from false rest.
+Proof.
+  induction l as [|x l IH]; intros b c rest Hc; cbn [app space_re_from].
+  - rewrite Hc. reflexivity.
+  - destruct (is_blank x); [destruct b|]; cbn [app]; rewrite IH by auto; reflexivity.
+Qed.
+
+Lemma space_re_join ls : space_re (join_lf ls) = join_lf (map space_re ls).
+Proof.
+  induction ls as [|l r IH]; [reflexivity|].
+  destruct r as [|l' r']; [reflexivity|].
+  rewrite join_lf_cons by discriminate. cbn [map]. rewrite (join_lf_cons (space_re l)) by (cbn; discriminate).
+  unfold space_re at 1. rewrite space_re_from_app_nonblank by reflexivity.
+  fold (space_re l). f_equal. f_equal. exact IH.
+Qed.
+
+Theorem whitespace_spec_preline t : core WPreLine t = preline_spec t.
+Proof.
+  unfold core, preline_spec. cbn [space_collapse new_line_collapse]. unfold tab_re.
+  rewrite (tab_re_from_lines (norm_lf t) [] false) by (auto; discriminate).
+  rewrite space_re_join. cbn [prepend].
+  destruct (split_lines (norm_lf t)) as [|s ss] eqn:E; [exfalso; eapply split_lines_nonempty; eauto|].
+  reflexivity.
+Qed.
